@@ -69,11 +69,88 @@ def load_check(prop):
     return importlib.import_module(f"vmon.checks.{prop.lower()}")
 
 
+def _retag(obj, new):
+    """copy of a case with every exact number class replaced by `new`; None when nothing was exact"""
+    hit = [False]
+
+    def walk(x):
+        if isinstance(x, dict):
+            out = {}
+            for k, v in x.items():
+                if k == "numtype" and v == "frac":
+                    out[k] = new
+                    hit[0] = True
+                else:
+                    out[k] = walk(v)
+            return out
+        if isinstance(x, list):
+            return [walk(v) for v in x]
+        return x
+
+    out = walk(obj)
+    return out if hit[0] else None
+
+
+def _dyadic_knots(obj):
+    """every number of every knot list ("U", "V") of the case is exactly representable in binary64"""
+    from fractions import Fraction
+
+    ok = [True]
+
+    def walk(x):
+        if isinstance(x, dict):
+            for k, v in x.items():
+                if k in ("U", "V") and isinstance(v, list):
+                    for n in v:
+                        try:
+                            q = Fraction(n)
+                        except (TypeError, ValueError):
+                            ok[0] = False
+                            continue
+                        if Fraction(float(q)) != q:
+                            ok[0] = False
+                else:
+                    walk(v)
+        elif isinstance(x, list):
+            for v in x:
+                walk(v)
+
+    walk(obj)
+    return ok[0]
+
+
+def prime(mod, case, prop, tier):
+    """Process history is an input: before one exact case in five whose knot values are exactly representable as
+    floats, the same case is run once with float numbers (unjudged, monitors off). Caches keyed by value instead of by
+    representation then serve float data to the exact run, which the oracles of the real run see."""
+    if not getattr(mod, "PRIMABLE", True):
+        return False
+    if int(case_digest(case), 16) % 5 != 0:
+        return False
+    twin = _retag(case, "float")
+    if twin is None or not _dyadic_knots(case):
+        return False
+    from . import attach
+
+    attach.S.enabled = False
+    try:
+        mod.run_case(twin, Ctx(prop, tier))
+    except BaseException:
+        pass
+    finally:
+        attach.S.enabled = True
+        attach.drain_violations()
+    return True
+
+
 def run_one(mod, case, prop, tier, S):
     """run one case under the monitors; returns (ctx, internal_error or None)"""
     from . import attach
 
+    primed = prime(mod, case, prop, tier)
     ctx = Ctx(prop, tier)
+    if primed:
+        ctx.count("primed_by_float_twin")
     attach.reset_steps()
     attach.drain_violations()
     err = None
